@@ -58,30 +58,42 @@ def check(name, which):
     if rc != 0:
         print('patch does not apply to /repo:', out); return 2
     try:
-        ids = [m['property']] if which != 'all' else ['C%02d' % i for i in range(1, 21)]
-        caught = []
-        for pid in ids:
-            rc, out = sh('%s/bin/seatalint check %s -verif /tmp/seeded_verif' % (ROOT, pid))
-            v = [l for l in out.splitlines() if l.startswith('VIOLATED') or l.startswith('UNDECIDED')]
-            if rc == 1:
-                caught.append((pid, v))
+        target = m['property'] if which != 'all' else 'all'
+        rc, out = sh('%s/bin/seatalint check %s -verif /tmp/seeded_verif' % (ROOT, target))
+        caught = {}
+        for l in out.splitlines():
+            if l.startswith('VIOLATED') or l.startswith('UNDECIDED'):
+                rule = l.split()[1]
+                caught.setdefault(rule.split('.')[0], []).append(l)
         if caught:
-            for pid, v in caught:
+            for pid in sorted(caught):
                 print('%s: CAUGHT by %s' % (name, pid))
-                for l in v[:4]:
+                for l in caught[pid][:4]:
                     print('    ' + l[:260])
         else:
-            print('%s: NOT caught by %s' % (name, ','.join(ids)))
+            print('%s: NOT caught by %s' % (name, target))
+        RESULT[name] = sorted({l.split()[1] for v in caught.values() for l in v})
         return 0
     finally:
         sh('git -C /repo checkout -- .')
         sh('git -C /repo clean -fdq')
+
+RESULT = {}
 
 if __name__ == '__main__':
     os.makedirs('/tmp/seeded_verif', exist_ok=True)
     shutil.copy(os.path.join(ROOT, 'known_findings.json'), '/tmp/seeded_verif/known_findings.json')
     if not os.path.exists('/tmp/seeded_verif/spec'):
         os.symlink(os.path.join(ROOT, 'spec'), '/tmp/seeded_verif/spec')
+    if sys.argv[1] == 'checkall':
+        # every seeded change against every check; writes seeded/RESULTS.json (input of DESIGN section 13)
+        names = sorted(n for n in os.listdir(os.path.join(ROOT, 'seeded')) if os.path.isdir(os.path.join(ROOT, 'seeded', n)))
+        for n in names:
+            check(n, 'all')
+        json.dump({'rules_reporting_each_seeded_change': RESULT}, open(os.path.join(ROOT, 'seeded', 'RESULTS.json'), 'w'), indent=1, sort_keys=True)
+        missed = [n for n in names if not RESULT.get(n)]
+        print('seeded changes: %d, reported: %d, missed: %s' % (len(names), len(names) - len(missed), missed))
+        sys.exit(1 if missed else 0)
     if sys.argv[1] == 'verify':
         sys.exit(verify(sys.argv[2]))
     sys.exit(check(sys.argv[2], sys.argv[3] if len(sys.argv) > 3 else 'own'))
